@@ -91,6 +91,12 @@ type callCase struct {
 	Rsp     headerSet
 	// BlockTarget > 0: pad the request header block to exactly this many bytes
 	BlockTarget int
+	// reuse sequences: the FContext shared by the steps, the 1-based step and
+	// what earlier steps' handlers had set
+	ctx     frugal.FContext
+	Step    int
+	Earlier []map[string]string
+	SeqID   string
 
 	mu              sync.Mutex
 	callerReqBefore map[string]string
@@ -436,12 +442,16 @@ func (lr *legRun) newConn() *clientConn {
 
 func (lr *legRun) oneCallOn(cc *clientConn, cs *callCase) {
 	m := lr.m
-	ctx := frugal.NewFContext(cs.CID)
-	if cs.TOms > 0 {
-		ctx.SetTimeout(time.Duration(cs.TOms) * time.Millisecond)
-	}
-	for _, p := range cs.Req.Pairs {
-		ctx.AddRequestHeader(p.Name, p.Value)
+	reused := cs.ctx != nil // a step of a reuse sequence: the FContext was used before
+	ctx := cs.ctx
+	if !reused {
+		ctx = frugal.NewFContext(cs.CID)
+		if cs.TOms > 0 {
+			ctx.SetTimeout(time.Duration(cs.TOms) * time.Millisecond)
+		}
+		for _, p := range cs.Req.Pairs {
+			ctx.AddRequestHeader(p.Name, p.Value)
+		}
 	}
 	if cs.BlockTarget > 0 {
 		// directed case: pad the header block to exactly BlockTarget bytes
@@ -456,16 +466,16 @@ func (lr *legRun) oneCallOn(cc *clientConn, cs *callCase) {
 	cs.callerCID = ctx.CorrelationID()
 	cs.callerTimeout = ctx.Timeout()
 	// sanity of the inputs themselves (caller side of the oracle)
-	if cs.CID != "" && cs.callerCID != cs.CID {
+	if !reused && cs.CID != "" && cs.callerCID != cs.CID {
 		lr.violation("caller-cid-not-kept", "NewFContext(cid).CorrelationID() differs from the given correlation id", cs, nil)
 	}
-	if cs.CID == "" && cs.callerCID == "" {
+	if !reused && cs.CID == "" && cs.callerCID == "" {
 		lr.violation("caller-cid-not-generated", "NewFContext(\"\") did not generate a correlation id", cs, nil)
 	}
-	if cs.TOms > 0 && cs.callerTimeout != time.Duration(cs.TOms)*time.Millisecond {
+	if !reused && cs.TOms > 0 && cs.callerTimeout != time.Duration(cs.TOms)*time.Millisecond {
 		lr.violation("caller-timeout-not-kept", "ctx.Timeout() differs from the value given to SetTimeout", cs, nil)
 	}
-	if other, fresh := m.claimOpID(cs.callerOpID, "caller "+lr.name+" "+cs.Token); !fresh {
+	if other, fresh := m.claimOpID(cs.callerOpID, "caller "+lr.name+" "+cs.Token); !fresh && !(reused && cs.Step > 1) {
 		lr.violation("caller-opid-collides", "a new FContext carries an op id already seen on another context ("+other+")", cs, nil)
 	}
 	lr.sumMu.Lock()
@@ -688,6 +698,10 @@ func (lr *legRun) verify(cs *callCase) {
 	}
 	sum := caseSummary{cs: cs, opid: cs.callerOpID, cid: cs.callerCID, oneway: cs.oneway(), rspFinal: hFinal, reqDigest: cs.callerReqBefore}
 	// 5. caller's response headers after return
+	if cs.Step > 0 {
+		lr.verifyReuseStep(cs, hFinal)
+		return
+	}
 	if !cs.oneway() {
 		m.run.Add("caller_after_observations", 1)
 		wantAfter := cs.Rsp.asMap()
